@@ -1096,12 +1096,12 @@ func (c *Ctx) ownerSinkRule(encodeFns []*ssa.Function) int {
 			if !isMethodOfT(fn) {
 				continue
 			}
-			if testsFF(fn) {
+			if escapes(fn) {
 				q = true
 				break
 			}
 			for _, caller := range encodeFns {
-				if !isMethodOfT(caller) || !testsFF(caller) {
+				if !isMethodOfT(caller) || !escapes(caller) {
 					continue
 				}
 				for _, b := range caller.Blocks {
@@ -1142,7 +1142,7 @@ func (c *Ctx) ownerSinkRule(encodeFns []*ssa.Function) int {
 		var owner *ssa.Function
 		for _, fn := range fns {
 			names = append(names, fn.Name())
-			if testsFF(fn) && owner == nil {
+			if escapes(fn) && owner == nil {
 				owner = fn
 			}
 			if !c.escapesOrOnlyCalledByEscapers(fn, 0, map[*ssa.Function]bool{}) {
@@ -1165,7 +1165,7 @@ func (c *Ctx) escapesOrOnlyCalledByEscapers(fn *ssa.Function, depth int, visitin
 	if fn == nil {
 		return false
 	}
-	if testsFF(fn) {
+	if escapes(fn) {
 		return true
 	}
 	if fn.Object() != nil && fn.Object().Exported() {
@@ -1190,7 +1190,7 @@ func (c *Ctx) escapesOrOnlyCalledByEscapers(fn *ssa.Function, depth int, visitin
 					continue
 				}
 				n++
-				if !testsFF(caller) || own == nil || recvOf(caller) != own {
+				if !escapes(caller) || own == nil || recvOf(caller) != own {
 					return false
 				}
 			}
@@ -1279,6 +1279,43 @@ func sinkUses(fa *ssa.FieldAddr) []ssa.Instruction {
 		}
 	}
 	return out
+}
+
+// escapes: the function tests what it emits against 0xFF itself, or asks a predicate of the coder
+// that does — a store-free function with a result that compares with 0xFF and whose answer is used
+// here (c := bw.capacity(), where capacity() is `if bw.last == 0xff { return 7 }; return 8`).
+func escapes(fn *ssa.Function) bool {
+	if fn == nil {
+		return false
+	}
+	if testsFF(fn) {
+		return true
+	}
+	for _, b := range fn.Blocks {
+		for _, ins := range b.Instrs {
+			call, ok := ins.(*ssa.Call)
+			if !ok || call.Referrers() == nil || len(*call.Referrers()) == 0 {
+				continue
+			}
+			g := call.Call.StaticCallee()
+			if g == nil || g.Blocks == nil || g.Signature.Results().Len() == 0 || !testsFF(g) {
+				continue
+			}
+			pure := true
+			for _, gb := range g.Blocks {
+				for _, gi := range gb.Instrs {
+					switch gi.(type) {
+					case *ssa.Store, *ssa.MapUpdate, ssa.CallInstruction:
+						pure = false
+					}
+				}
+			}
+			if pure {
+				return true
+			}
+		}
+	}
+	return false
 }
 
 // testsFF: the function compares some value with the constant 0xFF or 0xFF00 (byte-stuffing test).
